@@ -253,6 +253,36 @@ func (gen *generator) addGlobalEntitiesToModule() {
 			panic(fmt.Errorf("support for global %T not yet implemented", v))
 		}
 	}
+	// Unnamed global entities were given IDs in textual order while indexing,
+	// across all four kinds. The module stores (and the printer numbers) them
+	// per kind, so recompute the IDs in the order used by
+	// ir.Module.AssignGlobalIDs; otherwise printing fails for e.g. an unnamed
+	// function defined before an unnamed global variable.
+	id := int64(0)
+	for _, g := range gen.m.Globals {
+		if g.IsUnnamed() {
+			g.SetID(id)
+			id++
+		}
+	}
+	for _, a := range gen.m.Aliases {
+		if a.IsUnnamed() {
+			a.SetID(id)
+			id++
+		}
+	}
+	for _, i := range gen.m.IFuncs {
+		if i.IsUnnamed() {
+			i.SetID(id)
+			id++
+		}
+	}
+	for _, f := range gen.m.Funcs {
+		if f.IsUnnamed() {
+			f.SetID(id)
+			id++
+		}
+	}
 }
 
 // addAttrGroupDefsToModule adds IR attribute group definitions to the IR module
